@@ -303,6 +303,18 @@ def run_shard(shard, tier):
             res.case((k, n), nontrivial=True, outcome=(len(ind or ()), tuple((ind or ())[-2:])))
             for kind, msg in bad:
                 res.violate({'kind': kind, 'big': True}, case, msg)
+        # the frame count as a numpy integer (the length of an array dimension) near the top of its range: the arithmetic on it must not wrap
+        if k in (255, 65536):
+            import numpy as np
+            for kk, n in ((7, np.int32(2_000_000_000)), (64, np.int32(40_000_000)), (k, np.int32(2 ** 31 - 1)), (7, np.int64(2 ** 62)), (k, np.int64(2 ** 63 - 1))):
+                if kk > 1000:
+                    continue
+                with np.errstate(all='ignore'):
+                    bad, ind = check_sample_big(kk, n)
+                case = {'kind': 'sample_big', 'k': kk, 'n': int(n), 'ntype': type(n).__name__}
+                res.case((kk, int(n), type(n).__name__), nontrivial=True, outcome=(len(ind or ()), tuple(int(i) for i in (ind or ())[-2:])))
+                for kind, msg in bad:
+                    res.violate({'kind': kind, 'big': True, 'ntype': type(n).__name__}, case, msg)
     elif shard['kind'] == 'slice_hist':
         from TotalDepth.common import Slice
         rng = [None] + list(range(-N, N + 1))
@@ -352,7 +364,10 @@ def replay(case):
                 check_slice(n, case['start'], case['stop'], case['step'], obj)
         bad, _ = check_slice(case['n'], case['start'], case['stop'], case['step'], obj)
     elif k == 'sample_big':
-        bad, _ = check_sample_big(case['k'], case['n'])
+        import numpy as np
+        n = getattr(np, case['ntype'])(case['n']) if case.get('ntype') else case['n']
+        with np.errstate(all='ignore'):
+            bad, _ = check_sample_big(case['k'], n)
         return [{'sig': {'kind': kind, 'big': True}, 'case': case, 'msg': msg} for kind, msg in bad]
     elif k == 'sample':
         obj = None
